@@ -35,7 +35,7 @@ RULE = ('cases = (view, source size 0-3 rows (+ragged), schedule word over s_i/n
 ASSUMPTIONS = ['single-threaded cooperative schedules (petl has no threads)', 'twin views built from equal sources are deterministic (checked per view)']
 CACHING = ['sort', 'sort-key', 'sort-file-cache', 'sort-reverse-file', 'hashjoin', 'hashleftjoin', 'hashrightjoin', 'cache', 'cache-n2',
            'x:fromdicts-generator', 'x:fromdicts-generator-sample2', 'x:fromdicts-generator-shared-cells', 'join', 'distinct', 'aggregate-buffered']
-REQUIRED = ['failed-pass:source-failed-midway', 'views-judged', 'schedules-run', 'fresh-passes-compared'] + ['midfill:' + v for v in CACHING]
+REQUIRED = ['failed-pass:source-failed-midway', 'clearcache-under-live-iterators', 'views-judged', 'schedules-run', 'fresh-passes-compared'] + ['midfill:' + v for v in CACHING]
 EXHAUSTIVE = {'quick': False, 'thorough': False}
 
 _files = {}
@@ -244,6 +244,28 @@ def cases(ctx):
                 for k in range(1, n + 1):
                     for w in ('s0 ' + 'n0 ' * (L + 1) + 's1 s2 ' + 'n1 n2 ' * (L + 1), 's0 s1 ' + 'n1 ' * (L + 1) + 'n0 ' * (L + 1)):
                         yield {'view': name, 'n': n, 'ragged': ragged, 'schedule': _word(w), 'failpass': k}
+            # random schedules with clearcache() calls in between, for the views that have one
+            if name in CACHING or name.startswith(('sort', 'cache', 'x:cache', 'x:sort')):
+                for _ in range(ctx.pick(25, 400)):
+                    w, live, started = [], set(), set()
+                    for _ in range(rng.randint(5, 3 * (L + 2))):
+                        if rng.random() < 0.15 and started:
+                            w.append('c0')
+                            continue
+                        i = rng.randrange(3)
+                        if i not in started:
+                            w.append('s%d' % i)
+                            started.add(i)
+                            live.add(i)
+                            if rng.random() < 0.5:
+                                continue
+                        if i in live:
+                            if rng.random() < 0.1:
+                                w.append('x%d' % i)
+                                live.discard(i)
+                            else:
+                                w.extend(['n%d' % i] * rng.choice([1, 1, 2, L + 1]))
+                    yield {'view': name, 'n': n, 'ragged': ragged, 'schedule': _word(' '.join(w))}
             # random three-iterator schedules
             for _ in range(ctx.pick(6, 120)):
                 w, live, started = [], set(), set()
@@ -275,7 +297,9 @@ class _N(tuple):
 
 
 def _norm(r):
-    n = _N(util.crow(r) if isinstance(r, (list, tuple)) else (util.canon(r),))
+    # the row's own container kind is part of what a pass yields (['a', 1] != ('a', 1)): a pass that hands out lists where
+    # another pass of the same view hands out tuples is not "the same sequence of rows"
+    n = _N(((type(r).__name__,) + tuple(util.crow(r))) if isinstance(r, (list, tuple)) else (util.canon(r),))
     n.raw = tuple(r) if isinstance(r, (list, tuple)) else r
     return n
 
@@ -376,6 +400,11 @@ def judge(case, ctx):
                 del its[i]
                 done.add(i)
                 gc.collect()
+        elif op == 'c':
+            # the public clearcache() of the caching views, called while iterators are live
+            if hasattr(view, 'clearcache'):
+                view.clearcache()
+                ctx.seen('clearcache-under-live-iterators')
     ctx.seen('schedules-run')
     advanced = [j for j in got if len(got[j]) >= 2]
     if len(advanced) >= 2 and switches >= 1:
